@@ -264,7 +264,7 @@ func workC06(w *run.W) {
 		}
 		if mine {
 			bound := p.Bound
-			if strings.HasPrefix(pr.name, "corpus:") {
+			if strings.HasPrefix(pr.name, "corpus:") || strings.HasPrefix(pr.name, "types/") {
 				bound = p.CorpusBound
 			}
 			c06Explore(w, pr.name, pr.build, bound, p.MaxExec)
